@@ -77,6 +77,18 @@ CLAIMED = {
         note="Trusted: TLC, adapter projection. States where one prefix is bound to two URIs are only partly judged (property silent). "
              "Four known findings (unprefixed selectors do not follow the default namespace; attribute in default namespace; "
              "rule object with undeclared URI accepted)."),
+    "C11": dict(
+        technique="TLA+ matrix (Mutators.tla: class x mutator x rejection stage x prior state x attachment x read-only) enumerated "
+                  "completely by TLC; each cell rendered into one real call with before/after fingerprints; TLC trace monitor "
+                  "(MutatorsContract); rejected-unchanged clauses also evaluated on all C09/C10/C15/C17 history traces",
+        text="Exhaustive over a finite matrix of 1484 cells (19 DOM classes, 55 mutators, 6 rejection stages incl. 'after part of the "
+             "new content was accepted' and 'inside a nested object'); for every call that ends in a DOM exception TLC checks that "
+             "the serialisation of target, owner rule and sheet and the structural lists are unchanged, and that objects created "
+             "read-only reject every mutator with NoModificationAllowedErr. 'Arbitrary prior state' is covered by the history "
+             "checks, whose monitors contain the same clause.",
+        design_ref="DESIGN.md section 5 C11",
+        note="Trusted: TLC, the adapter's table of concrete bad inputs per cell (cells without rendering are counted as not applicable), "
+             "the fingerprint's completeness (cssText + rule/property/selector/media/namespace lists)."),
 }
 PENDING = "check not built yet in this round (see DESIGN.md section 10 build order); no claim is made"
 NOT_APPLICABLE = {}
